@@ -1221,7 +1221,7 @@ func genC04(ctx *hx.Ctx, emit func(hx.Case)) {
 			sets := optSets
 			if !ctx.Thorough() && c04OptionSensitive(inj.name) {
 				// quick tier: default, the option(s) that govern this rule, everything on, one rotating other option
-				sets = []optSel{{0, allowSets[0]}, {31, allowSets[3]}, {31, allowSets[0]}, {1 << (n % 5), allowSets[0]}}
+				sets = []optSel{{0, allowSets[0]}, {31, allowSets[3]}, {1 << (n % 5), allowSets[0]}}
 				switch {
 				case strings.HasPrefix(inj.name, "example"):
 					sets = append(sets, optSel{1, allowSets[0]}, optSel{30, allowSets[0]})
@@ -1252,7 +1252,7 @@ func genC04(ctx *hx.Ctx, emit func(hx.Case)) {
 	}
 	// 3. seeded stream: 1–3 injections at random sites (re-walked after each), random options
 	r := ctx.Rng
-	count := 2500
+	count := 1500
 	if ctx.Thorough() {
 		count = 40000
 	}
